@@ -237,6 +237,9 @@ func c12Check(state any, e *vsched.Exec) (string, []explore.Finding) {
 			bad("wrong-result", "call %d returned data=%q without error: neither its own reply nor an error", res.ID, res.Data)
 		}
 	}
+	if st.cli.StaleExpiry > 0 {
+		bad("disturbed:stale-write-deadline", "a request was written under a write deadline that an earlier call had armed and that was not renewed: once that deadline has passed the request times out although its own call has no deadline and the connection is healthy (%d such write(s))", st.cli.StaleExpiry)
+	}
 	if len(fs) == 0 && st.serverEnd != "ok" && len(e.Panics) == 0 {
 		bad("server-stuck", "scripted server did not finish (%q); blocked: %s", st.serverEnd, blockedList(e))
 	}
